@@ -280,6 +280,25 @@ func runC06(c *fw.Ctx) {
 			c06Simple(k, ref.Instr{Op: "reshape", Shape: target}, shape, "reshape/"+shapeKey(shape)+"/"+shapeKey(target))
 		})
 	}
+	// ---- Reshape between shapes of EQUAL rank that collide under ad-hoc keys (the sizes written one after the other, equal products of
+	// prefixes, permutations): [11,1] <-> [1,11], [1,2,12] <-> [12,1,2], [2,6] <-> [3,4] ... every ordered pair inside each group ----
+	for gi, group := range CollidingShapes {
+		gi, group := gi, group
+		c.Case(func(k *fw.K) {
+			k.Count("reshape_colliding_group_cases", 1)
+			for _, a := range group {
+				for _, b := range group {
+					if ref.Prod(a) != ref.Prod(b) || ref.SameShape(a, b) {
+						continue
+					}
+					c06Simple(k, ref.Instr{Op: "reshape", Shape: ref.CopyInts(b)}, a, fmt.Sprintf("reshape-colliding/%d/%s/%s", gi, shapeKey(a), shapeKey(b)))
+					if k.Failed() {
+						return
+					}
+				}
+			}
+		})
+	}
 	for _, shape := range Shapes(0, c.Pick(5, 6), 3) {
 		for dim := 0; dim <= len(shape); dim++ {
 			shape, dim := shape, dim
